@@ -192,43 +192,21 @@ Definition cdec (id : N) (w : value) : option value :=
 Definition encode_t := encode_typed cenc.
 Definition decode_t := decode_typed cdec.
 
-(* ---- leniency: where the decoder accepts something it would not write -------- *)
-(* [lenient s it] = decoding [it] as [s] goes through a place where the Go
-   decoder accepts more than one wire form for the value it produces:
-   (a) rlp:"nil" pointers take both empty kinds (makeOptionalPtrDecoder),
-   (b) a custom DecodeRLP normalises (Validator.Expelled, ValidatorIndex,
-       EvidenceDoubleSign). *)
-Fixpoint lenient (s : schema) (it : item) {struct s} : bool :=
+Definition lenient_t := lenient cenc cdec.
+Definition good_t := good cenc cdec.
+
+(* schemas on which the decoder is strict: no rlp:"nil" pointer and none of
+   the three normalising custom decoders *)
+Fixpoint strict (s : schema) : bool :=
   match s with
-  | SList e => match it with Lst l => existsb (lenient e) l | _ => false end
-  | SStruct fs =>
-    match it with
-    | Lst l =>
-      (fix go (fs : list schema) (l : list item) : bool :=
-         match fs, l with
-         | f :: fs', x :: l' => lenient f x || go fs' l'
-         | _, _ => false
-         end) fs l
-    | _ => false
-    end
-  | SPtr e => lenient e it
-  | SOpt e =>
-    match it with
-    | Str [] => negb (item_eqb (nil_item e) (Str []))
-    | Lst [] => negb (item_eqb (nil_item e) (Lst []))
-    | _ => lenient e it
-    end
+  | SList e | SPtr e => strict e
+  | SStruct fs => (fix go (fs : list schema) : bool :=
+                     match fs with [] => true | f :: r => strict f && go r end) fs
+  | SOpt _ => false
   | SCustom id w =>
-    lenient w it ||
-    match of_item cdec w it with
-    | Some wv =>
-      match cdec id wv with
-      | Some v => match cenc id v with Some wv' => negb (value_eqb wv wv') | None => true end
-      | None => false
-      end
-    | None => false
-    end
-  | _ => false
+    negb ((id =? id_Validator) || (id =? id_ValidatorIndex) || (id =? id_EvidenceDoubleSign))
+    && strict w
+  | _ => true
   end.
 
 Fixpoint has_custom (id : N) (s : schema) : bool :=
@@ -263,13 +241,6 @@ Definition opt_bytes_eqb (a b : option bytes) : bool :=
   | None, None => true
   | _, _ => false
   end.
-Definition opt_value_eqb (a b : option value) : bool :=
-  match a, b with
-  | Some x, Some y => value_eqb x y
-  | None, None => true
-  | _, _ => false
-  end.
-
 Definition case_ok (t : table) (c : case) : bool :=
   match c with
   | CEnc ty v rt b =>
